@@ -283,7 +283,8 @@ impl Links {
         for lane_id in lane_ids {
             if let Entry::Occupied(mut entry) = forward.entry(lane_id) {
                 entry.get_mut().remove(&id, total_count);
-                if entry.get().is_empty() {
+                // The entry for a lane with a reporter must be kept or later links would go unreported.
+                if entry.get().is_empty() && entry.get().reporter.is_none() {
                     entry.remove();
                 }
             }
